@@ -617,6 +617,52 @@ func TestC02(t *testing.T) {
 			})
 		}
 	}
+	// (4d) a long run of refused frames on ONE reader (a peer whose definition of its most frequent message differs): every
+	// refusal is a non-fatal parse error however many came before, and the valid frame behind them is delivered
+	{
+		list := genv.sorted()
+		for _, runLen := range []int{300, 600, vh.Pick(1100, 5000)} {
+			var stream []byte
+			for i := 0; i < runLen; i++ {
+				mi := list[r.Intn(len(list))]
+				version := 1 + r.Intn(2)
+				if mi.Msg.GetID() > 255 {
+					version = 2
+				}
+				sp, _ := validFrame(r, mi, version, 0, false, nil)
+				sp.Checksum ^= uint16(1 + r.Intn(0xFFFF))
+				stream = append(stream, ref.Serialize(sp)...)
+			}
+			mi := list[r.Intn(len(list))]
+			last, _ := validFrame(r, mi, 2, 0, false, nil)
+			stream = append(stream, ref.Serialize(last)...)
+			rep.Eval(1)
+			rep.Count("long_runs_of_refused_frames", 1)
+			guard(rep, "kind=panic refusal-run", func() interface{} { return runLen }, func() {
+				rd := &frame.Reader{ByteReader: &chunkReader{data: stream, r: r.Fork(), max: 300}, DialectRW: genv.drw}
+				_ = rd.Initialize()
+				refused := 0
+				for {
+					fr, err := rd.Read()
+					if err == nil {
+						if got := fromFrame(fr); refused != runLen || got.MsgID != last.MsgID || got.Seq != last.Seq {
+							rep.Violation("kind=accept-damaged msg=refusal-run", fmt.Sprintf("a frame was delivered after %d of %d refusals", refused, runLen), descFrame(fr))
+						}
+						return
+					}
+					if _, ok := err.(frame.ReadError); !ok {
+						rep.Violation("kind=undelivered msg=refusal-run", fmt.Sprintf("after %d refused frames in a row on one reader, the next refusal was not a non-fatal parse error: %v", refused, err), nil)
+						return
+					}
+					refused++
+					if refused > runLen {
+						rep.Violation("kind=undelivered msg=refusal-run", "the valid frame behind a run of refused frames was refused too", vh.Hex(ref.Serialize(last)))
+						return
+					}
+				}
+			})
+		}
+	}
 	c02twins(rep, vh.Sub(seed, "c02-twins"))
 	c02reinit(rep, vh.Sub(seed, "c02-reinit"))
 	c02swap(rep, vh.Sub(seed, "c02-swap"))
